@@ -373,6 +373,11 @@ def selftest():
 
 
 def main():
+    for stream in (sys.stdout, sys.stderr):
+        try:
+            stream.reconfigure(errors="backslashreplace")  # messages quote labels; the terminal / pipe may be ASCII-only
+        except Exception:
+            pass
     ap = argparse.ArgumentParser()
     ap.add_argument("prop", nargs="?")
     ap.add_argument("--tier", default=os.environ.get("VERIF_TIER", "quick"), choices=["quick", "thorough"])
